@@ -19,6 +19,8 @@ NULL = Ptr(None, 0)
 
 class PathEnd(Exception):
     pass
+class PathStop(Exception):
+    pass
 class Unsupported(Exception):
     pass
 
@@ -30,6 +32,49 @@ def simp_int(v):
     if z3.is_int_value(s): return s.as_long()
     return s
 
+def exact_div(t, d):
+    """t / d for an integer term that is syntactically a multiple of d (sums, products with constants, ite); None otherwise"""
+    if is_conc(t): return t // d if t % d == 0 else None
+    t = z3.simplify(t)
+    if z3.is_int_value(t):
+        v = t.as_long(); return v // d if v % d == 0 else None
+    k = t.decl().kind()
+    if k == z3.Z3_OP_ADD:
+        parts = [exact_div(c, d) for c in t.children()]
+        if any(p is None for p in parts): return None
+        r = parts[0]
+        for p in parts[1:]: r = r + p
+        return r
+    if k == z3.Z3_OP_SUB:
+        parts = [exact_div(c, d) for c in t.children()]
+        if any(p is None for p in parts): return None
+        r = parts[0]
+        for p in parts[1:]: r = r - p
+        return r
+    if k == z3.Z3_OP_UMINUS:
+        q = exact_div(t.arg(0), d); return None if q is None else -q
+    if k == z3.Z3_OP_MUL:
+        ch = t.children()
+        for i, c in enumerate(ch):
+            if z3.is_int_value(c) and c.as_long() % d == 0:
+                r = z3.IntVal(c.as_long() // d)
+                for j, c2 in enumerate(ch):
+                    if j != i: r = r * c2
+                return r
+        for i, c in enumerate(ch):
+            q = exact_div(c, d) if not z3.is_int_value(c) else None
+            if q is not None:
+                r = q
+                for j, c2 in enumerate(ch):
+                    if j != i: r = r * c2
+                return r
+        return None
+    if k == z3.Z3_OP_ITE:
+        a, b = exact_div(t.arg(1), d), exact_div(t.arg(2), d)
+        if a is None or b is None: return None
+        return z3.If(t.arg(0), a, b)
+    return None
+
 class Event(object):
     def __init__(self, name, args): self.name, self.args = name, args
     def __repr__(self): return 'Event(%s)' % self.name
@@ -39,11 +84,18 @@ class State(object):
         self.mem = {}; self.regs = {}; self.pc = []; self.ovf = []; self.events = []
         self.exc = None; self.notes = []; self.writes = []   # writes into matrix buffers
         self.block = None; self.prev = None
+        self.fn = None; self.ip = 0; self.frames = []; self.visits = {}; self.inv = 0    # call stack for inlined internal functions
+        self.known = {}                                       # concretised terms: ast id -> int (see Executor.concretize)
+        self.divz = []                                        # (divisor == 0, len(pc)) of every division by a symbolic divisor
+        self.acc = []                                         # accesses to array regions: (name, index term, 'r'/'w', len(pc))
     def clone(self):
         s = State()
         s.mem = dict(self.mem); s.regs = dict(self.regs); s.pc = list(self.pc); s.ovf = list(self.ovf)
         s.events = list(self.events); s.exc = self.exc; s.notes = list(self.notes); s.writes = list(self.writes)
         s.block, s.prev = self.block, self.prev
+        s.fn, s.ip, s.visits, s.inv = self.fn, self.ip, dict(self.visits), self.inv
+        s.frames = [dict(f, regs=dict(f['regs']), visits=dict(f['visits'])) for f in self.frames]
+        s.acc = list(self.acc); s.divz = list(self.divz); s.known = dict(self.known)
         return s
 
 class Executor(object):
@@ -56,6 +108,10 @@ class Executor(object):
         self.stats = {'branch_queries': 0, 'unknown_branches': 0, 'instructions': 0}
         self.loop_bound = loop_bound
         self.aliases = {}        # product aliases  (id(term a), id(term b)) -> term
+        self.math_ints = False   # kernel mode: machine integers as mathematical integers + 'does not fit' events (checked per path)
+        self.fmul = None         # optional hook: floating multiplication as an uninterpreted function (kernel scenarios, see scen_kernel.fm)
+        self.inline = set()      # names of internal functions executed inline (call stack in the state)
+        self.inv_n = 0
         self.keep = []           # keep z3 terms alive (ids are used as keys)
 
     # ---------------------------------------------------------------- helpers
@@ -74,9 +130,11 @@ class Executor(object):
             r = v % M
             if signed and r >= M//2: r -= M
             return r
+        lo, hi = (-(M//2), M//2) if signed else (0, M)
+        if self.math_ints:
+            st.ovf.append(z3.Or(v < lo, v >= hi)); return v
         # bounded syntactic ranges are not tracked: always introduce the wrap variable
         r, k = self.fresh('w'), self.fresh('k')
-        lo, hi = (-(M//2), M//2) if signed else (0, M)
         self.assume(st, r == v - M*k); self.assume(st, r >= lo); self.assume(st, r < hi)
         st.ovf.append(k != 0)
         return r
@@ -174,10 +232,13 @@ class Executor(object):
             if r[3:].startswith('PyExc_'): return Ptr('exc:' + r[3:], 0)
             if r[3:] in ('_Py_NoneStruct',): return Ptr('obj:None', 0)
             # constant tables (function pointer arrays, E_SIZE, ...)
+            if init is None and hasattr(self.sc, 'external_load'): return self.sc.external_load(self, st, r, off, ty)
             return self.load_const(t, init, off, ty, r)
         if r == 'api':
             if not is_conc(off): raise Unsupported('symbolic cvxopt_API index')
             return Ptr('fn:api#%d' % (off//8), 0)
+        if r.startswith('arr:'):
+            return self.arr_load(st, r[4:], off, ty)
         if r.startswith('buf:'):
             # contents of matrix buffers are not modelled in the wrapper scenarios
             st.notes.append('read of matrix buffer %s at %s' % (r, off))
@@ -209,61 +270,131 @@ class Executor(object):
     def store(self, st, ty, val, ptr):
         if not isinstance(ptr, Ptr) or ptr.region is None: raise Unsupported('store through null/unknown pointer')
         off = simp_int(ptr.off)
+        if ptr.region.startswith('arr:'):
+            self.arr_store(st, ptr.region[4:], off, ty, val); return
         if ptr.region.startswith('buf:'):
             st.writes.append((ptr.region, off, self.mod.size_of(ty))); return
         if not is_conc(off): raise Unsupported('symbolic offset store into %s' % ptr.region)
         st.mem[(ptr.region, off)] = val
 
+    # ---------------------------------------------------------------- array regions (kernel scenarios)
+    def arr_index(self, name, off):
+        """element index of a byte offset into a typed array region (exact division by the element size)"""
+        esz = self.sc.arrays[name]['esz']
+        if is_conc(off):
+            if off % esz: raise Unsupported('misaligned access into array %s' % name)
+            return off // esz
+        q = exact_div(off, esz)
+        if q is None: raise Unsupported('offset %s into array %s is not a multiple of %d' % (off, name, esz))
+        return simp_int(q)
+    def arr_load(self, st, name, off, ty):
+        a = self.sc.arrays[name]
+        if self.mod.size_of(ty) != a['esz']: raise Unsupported('access of width %d into array %s of element size %d' % (self.mod.size_of(ty), name, a['esz']))
+        if (ty.kind in ('double', 'float')) != (a['kind'] == 'real'): raise Unsupported('type punning on array %s' % name)
+        idx = self.arr_index(name, off)
+        st.acc.append((name, idx, 'r', len(st.pc)))
+        cur = st.mem.get(('arr', name), a['init'])
+        v = z3.simplify(z3.Select(cur, idx))
+        if a.get('concretize') and not z3.is_int_value(v): return self.concretize(st, v, a['concretize'])
+        return v.as_long() if z3.is_int_value(v) else v
+
+    def concretize(self, st, v, cap):
+        """small-domain integer term (structure of a sparse matrix): fork over all values that are feasible under the path
+        condition (found by the solver one by one; more than `cap` values -> unsupported).  Children re-execute the current
+        instruction with the value fixed."""
+        key = v.get_id()
+        if key in st.known: return st.known[key]
+        self.keep.append(v)
+        vals = []
+        self.solver.push()
+        try:
+            while True:
+                self.stats['branch_queries'] += 1
+                r = self.solver.check()
+                if r == z3.unknown: raise Unsupported('concretisation: solver gave up')
+                if r == z3.unsat: break
+                val = self.solver.model().eval(v, model_completion=True).as_long()
+                vals.append(val); self.solver.add(v != val)
+                if len(vals) > cap: raise Unsupported('concretisation: more than %d feasible values' % cap)
+        finally:
+            self.solver.pop()
+        if not vals:
+            self.finish(st, 'infeasible'); raise PathStop()
+        for val in vals[:-1]:
+            child = st.clone()
+            child.ip = st.ip - 1
+            self.solver.push()
+            self.assume(child, v == val); child.known[key] = val
+            try: self.explore(child)
+            finally: self.solver.pop()
+            self.fn = st.fn
+        self.assume(st, v == vals[-1]); st.known[key] = vals[-1]
+        return vals[-1]
+    def arr_store(self, st, name, off, ty, val):
+        a = self.sc.arrays[name]
+        if self.mod.size_of(ty) != a['esz']: raise Unsupported('access of width %d into array %s of element size %d' % (self.mod.size_of(ty), name, a['esz']))
+        idx = self.arr_index(name, off)
+        st.acc.append((name, idx, 'w', len(st.pc)))
+        cur = st.mem.get(('arr', name), a['init'])
+        if a['kind'] == 'real' and is_conc(val): val = z3.RealVal(val)
+        st.mem[('arr', name)] = z3.Store(cur, idx, val)
+
     # ---------------------------------------------------------------- instruction step
     RE_ASSIGN = re.compile(r'^(%[\w.$-]+|%"[^"]*") = (.*)$')
 
-    def run(self, fname, args):
+    def run(self, fname, args, st=None):
         fn = self.mod.functions[fname]
-        st = State()
+        st = st or State()
         for (t, nm), a in zip(fn.params, args): st.regs[nm] = a
         st.block, st.prev = fn.order[0], None
+        st.fn, st.ip, st.visits = fn, 0, {}
         self.fn = fn
-        self.visits = {}
-        self.explore(st, {})
+        self.explore(st)
         return self.paths
 
     def finish(self, st, kind, retval=None, why=None):
         self.paths.append({'kind': kind, 'ret': retval, 'pc': st.pc, 'ovf': st.ovf, 'events': st.events, 'exc': st.exc,
-                           'notes': st.notes, 'why': why, 'writes': st.writes, 'mem': st.mem})
+                           'notes': st.notes, 'why': why, 'writes': st.writes, 'mem': st.mem, 'acc': st.acc, 'divz': st.divz})
         if len(self.paths) >= self.max_paths: raise PathEnd('path budget')
 
-    def explore(self, st, visits):
-        fn = self.fn
+    def explore(self, st, visits=None):
         while True:
-            vis = visits.get(st.block, 0) + 1
-            visits = dict(visits); visits[st.block] = vis
-            if vis > self.loop_bound + 1:
-                self.finish(st, 'loop-bound', why='block %s visited more than %d times' % (st.block, self.loop_bound)); return
+            fn = st.fn; self.fn = fn
             insts = fn.blocks[st.block]
-            # phi nodes first (parallel)
-            k = 0; newvals = {}
-            if st.prev == '__merged__':
-                while k < len(insts) and ' = phi ' in insts[k]: k += 1
-            while k < len(insts) and ' = phi ' in insts[k]:
-                m = self.RE_ASSIGN.match(insts[k]); rest = m.group(2)[4:]
-                ty, j = parse_type(rest)
-                for inc in re.findall(r'\[\s*(.+?),\s*%([\w.$-]+)\s*\]', rest[j:]):
-                    if inc[1] == st.prev: newvals[m.group(1)] = self.eval_operand(st, ty, inc[0]); break
-                else: raise Unsupported('phi without incoming edge from %s' % st.prev)
-                k += 1
-            st.regs.update(newvals)
+            k = st.ip
+            if st.ip == 0:
+                vis = st.visits.get(st.block, 0) + 1
+                st.visits = dict(st.visits); st.visits[st.block] = vis
+                if vis > self.loop_bound + 1:
+                    self.finish(st, 'loop-bound', why='block %s of %s visited more than %d times' % (st.block, fn.name, self.loop_bound)); return
+                # phi nodes first (parallel)
+                newvals = {}
+                if st.prev == '__merged__':
+                    while k < len(insts) and ' = phi ' in insts[k]: k += 1
+                while k < len(insts) and ' = phi ' in insts[k]:
+                    m = self.RE_ASSIGN.match(insts[k]); rest = m.group(2)[4:]
+                    ty, j = parse_type(rest)
+                    for inc in re.findall(r'\[\s*(.+?),\s*%([\w.$-]+)\s*\]', rest[j:]):
+                        if inc[1] == st.prev: newvals[m.group(1)] = self.eval_operand(st, ty, inc[0]); break
+                    else: raise Unsupported('phi without incoming edge from %s' % st.prev)
+                    k += 1
+                st.regs.update(newvals)
             nxt = None
-            for s in insts[k:]:
+            while k < len(insts):
+                s = insts[k]; k += 1; st.ip = k
                 self.stats['instructions'] += 1
                 try:
-                    nxt = self.step(st, s, visits)
+                    nxt = self.step(st, s, st.visits)
+                except PathStop:
+                    return
                 except Unsupported as e:
-                    self.finish(st, 'unsupported', why='%s  [in: %s]' % (e, s[:120])); return
+                    self.finish(st, 'unsupported', why='%s  [in %s: %s]' % (e, fn.name, s[:120])); return
                 if nxt is not None: break
             if nxt == 'done': return
+            if nxt == 'frame': continue            # entered or left an inlined function: st.fn / block / ip are set
             if nxt is None:
                 self.finish(st, 'unsupported', why='block %s fell through' % st.block); return
-            st.prev, st.block = st.block, nxt
+            st.prev, st.block, st.ip = st.block, nxt, 0
 
     def branch(self, st, cond, visits, t_label, f_label):
         """cond: z3 Bool or python bool"""
@@ -292,11 +423,12 @@ class Executor(object):
         child = st.clone()
         self.solver.push()
         self.assume(child, side)
-        child.prev, child.block = st.block, lab
+        child.prev, child.block, child.ip = st.block, lab, 0
         try:
-            self.explore(child, visits)
+            self.explore(child)
         finally:
             self.solver.pop()
+        self.fn = st.fn
         self.assume(st, outs[1][0])
         return outs[1][1]
 
@@ -308,7 +440,7 @@ class Executor(object):
         Both sides are evaluated, stores into locals (allocas) and the join's phi values are merged with
         ite; overflow events of a side are guarded by that side's condition.  Returns the join label
         (with st.block = '__merged__') or None if the shape does not apply."""
-        fn = self.fn
+        fn = self.fn = st.fn or self.fn
         def info(lab):
             b = fn.blocks.get(lab)
             if not b: return None
@@ -396,9 +528,13 @@ class Executor(object):
         except Unsupported:
             return None
         # commit: definitional constraints of the evaluated sides, guarded overflow events, merged values
+        n_acc = len(st.acc)
         for lab, (cond, sub, newpc, newovf) in sides.items():
             for f in newpc: self.assume(st, f)
             for o in newovf: st.ovf.append(z3.And(cond, o))
+        for lab, (cond, sub, newpc, newovf) in sides.items():
+            for a_ in sub.acc[n_acc:]:       # array reads made inside a merged side stay bounds obligations, guarded by the side's condition
+                st.acc.append((a_[0], a_[1], a_[2], len(st.pc), z3.And(cond, a_[4]) if len(a_) > 4 else cond))
             # registers defined inside a side block are only live there or through phis
         st.mem.update(memnew)
         st.regs.update(merged)
@@ -488,7 +624,7 @@ class Executor(object):
         res, rhs = (m.group(1), m.group(2)) if m else (None, s)
         op = rhs.split(None, 1)[0]
         if op == 'alloca':
-            st.regs[res] = Ptr('a:' + res, 0); return None
+            st.regs[res] = Ptr('a:' + res if not st.inv else 'a:%d:%s' % (st.inv, res), 0); return None
         if op == 'store':
             body = rhs[6:]
             if body.startswith('volatile '): body = body[9:]
@@ -543,7 +679,7 @@ class Executor(object):
             if op == 'fneg':
                 a = self.eval_operand(st, ty, body[j:]); st.regs[res] = -a; return None
             a_s, b_s = split_top(body[j:]); a = self.eval_operand(st, ty, a_s); b = self.eval_operand(st, ty, b_s)
-            st.regs[res] = {'fadd': lambda: a + b, 'fsub': lambda: a - b, 'fmul': lambda: a*b, 'fdiv': lambda: a/b}[op](); return None
+            st.regs[res] = {'fadd': lambda: a + b, 'fsub': lambda: a - b, 'fmul': lambda: (self.fmul(a, b) if self.fmul else a*b), 'fdiv': lambda: a/b}[op](); return None
         if op == 'icmp':
             pred, body = rhs[5:].split(None, 1)
             ty, j = parse_type(body); a_s, b_s = split_top(body[j:])
@@ -585,8 +721,14 @@ class Executor(object):
             return m2.group(2)
         if op == 'ret':
             body = rhs[3:].strip()
-            if body == 'void': self.finish(st, 'return', None); return 'done'
-            ty, j = parse_type(body); v = self.eval_operand(st, ty, body[j:])
+            v = None
+            if body != 'void':
+                ty, j = parse_type(body); v = self.eval_operand(st, ty, body[j:])
+            if st.frames:
+                fr = st.frames.pop()
+                st.fn, st.regs, st.block, st.prev, st.ip, st.visits, st.inv = fr['fn'], fr['regs'], fr['block'], fr['prev'], fr['ip'], fr['visits'], fr['inv']
+                if fr['res'] is not None: st.regs[fr['res']] = v
+                return 'frame'
             self.finish(st, 'return', v); return 'done'
         if op == 'unreachable':
             self.finish(st, 'unreachable'); return 'done'
@@ -638,11 +780,11 @@ class Executor(object):
             if al is None: al = self.aliases.get((self._id(b), self._id(a)))
             if al is not None: return al
             return self.wrap(st, a * b, bits)
-        if op == 'sdiv':
+        if op in ('sdiv', 'srem'):
             if is_conc(b) and b == 0: raise Unsupported('division by zero')
-            return self.tdiv(a, b)
-        if op == 'srem':
-            q = self.tdiv(a, b); return a - q*b
+            if not is_conc(b): st.divz.append((b == 0, len(st.pc)))      # undefined behaviour (SIGFPE on x86) when the divisor is zero
+            q = self.tdiv(a, b)
+            return q if op == 'sdiv' else a - q*b
         if op in ('and', 'or', 'xor'):
             if bits == 1:
                 ba, bb = self.as_bool(a), self.as_bool(b)
@@ -686,6 +828,14 @@ class Executor(object):
             fp = st.regs.get(callee_tok)
             if not isinstance(fp, Ptr) or not str(fp.region).startswith('fn:'): raise Unsupported('indirect call through %r' % (fp,))
             name = fp.region[3:]
+        if name in self.inline and name in self.mod.functions:
+            callee = self.mod.functions[name]
+            if len(st.frames) > 12: raise Unsupported('call depth')
+            st.frames.append({'fn': st.fn, 'regs': st.regs, 'block': st.block, 'prev': st.prev, 'ip': st.ip, 'visits': st.visits, 'inv': st.inv, 'res': res})
+            self.inv_n += 1
+            st.fn, st.regs, st.block, st.prev, st.ip, st.visits, st.inv = callee, {}, callee.order[0], None, 0, {}, self.inv_n
+            for (t_, nm_), (at_, a_) in zip(callee.params, args): st.regs[nm_] = a_
+            return 'frame'
         r = self.sc.call(self, st, name, args, rt)
         if r is PathEndMarker: return 'done'
         if res is not None: st.regs[res] = r
